@@ -6,7 +6,15 @@ import (
 
 	"example.com/corp2/asmlib"
 	"example.com/corp2/internal/secret"
+	"example.com/corp2/internal/wrap"
 )
+
+// settings reaches reflection only through wrap.Encode, two packages away from reflect
+type settings struct {
+	Name    string
+	Port    int
+	Verbose bool
+}
 
 var version = "dev-build-default"
 
@@ -20,4 +28,5 @@ func main() {
 	fmt.Println(asmlib.Add(40, 2), asmlib.AddViaGo(1, 2), asmlib.FieldOffsets())
 	fmt.Println(linkedGreet("x"), secret.Public(), linkedCounter)
 	fmt.Println("version:", version, "channel:", secret.Channel)
+	fmt.Println(wrap.Encode(settings{"svc", 8080, true}))
 }
